@@ -152,8 +152,14 @@ pub fn replay(path: &str) {
                 let env = CoreEnv::new();
                 let a = execute(&redeem, &map, &inp, &env, None, false);
                 let b = execute(&redeem, &map, &inp, &env, Some(0xff), false);
+                // the same input value as a view into a larger shared buffer, byte-aligned (offset 8 or 16) or not (offset 4):
+                // where a value sits in its buffer is not part of the value
+                let lead = match k % 3 { 0 => Value::u8(0xa5), 1 => Value::u16(0xc33c), _ => Value::u4(0x9) };
+                let wrapped = Value::product(lead, inp.shallow_clone());
+                let view = wrapped.as_product().expect("product").1.to_value();
+                let v = execute(&redeem, &map, &view, &env, None, false);
                 // the arrows the crate ended up with
-                json!({"run": a, "run_ff": b, "root": [ty_j(&redeem.arrow().source), ty_j(&redeem.arrow().target)]})
+                json!({"run": a, "run_ff": b, "run_view": v, "root": [ty_j(&redeem.arrow().source), ty_j(&redeem.arrow().target)]})
             })
         })
         .unwrap_or_else(|e| json!({"panic": e}));
